@@ -114,6 +114,7 @@ func (b *builder) Create() (Controller, error) {
 		ctx: ctx,
 	}
 
+	verifTrace(c, "ctl.new", cache, subscription, publisher, c.lister, c.watcher, b.filter)
 	go c.lc.WatchContext(c.ctx)
 
 	go c.run()
